@@ -20,7 +20,56 @@ theorem loopCtx_isSome {T : List St} {loop : Option Nat} {a : St} (h : LoopCtx T
 macro "loopc" : tactic => `(tactic| first
   | (intro h; exact loopCtx_isSome (by apply_assumption; exact h))
   | (intro _; rfl)
-  | (intro h; cases h))
+  | (intro h; cases h; done))
+
+theorem loopCtx_intro {T : List St} {idx t : Nat} {a : St}
+    (h1 : T[idx]? = some (loopUp a none)) (h2 : T[t]? = some (loopUp a none)) :
+    LoopCtx T (some idx) (loopUp a (some t)) :=
+  ⟨idx, t, a.loops, _, _, rfl, h1, le_loopUp a _, rfl, h2, le_loopUp a _⟩
+
+theorem rule_break {C : Code} {T : List St} {pc : Nat} {a : St} {loop : Option Nat}
+    (hC : C[pc]? = some (ns .break_)) (hT : T[pc]? = some a) (hl : LoopCtx T loop a) :
+    LocalOK C T pc := by
+  obtain ⟨idx, t, rest, b1, b2, _, _, _, hlo, h2, hle⟩ := hl
+  exact rule1 hC hT (step_break pc t a rest hlo) (cov_le h2 hle)
+
+theorem rule_continue {C : Code} {T : List St} {pc idx : Nat} {a : St}
+    (hC : C[pc]? = some (ns (.jump idx))) (hT : T[pc]? = some a) (hl : LoopCtx T (some idx) a) :
+    LocalOK C T pc := by
+  obtain ⟨idx', t, rest, b1, b2, he, h1, hle, _, _, _⟩ := hl
+  cases he
+  exact rule1 hC hT (step_jump idx pc a) (cov_le h1 hle)
+
+theorem head_keyTab {T : List St} {idx : Nat} {h : St} {k : Option String}
+    (hs : Seg T idx (keyTab h k)) (he : T[idx + (keyStore k).length]? = some h) : T[idx]? = some h := by
+  cases k with
+  | none => simpa [keyStore] using he
+  | some x => exact ((seg_cons T idx h []).mp hs).1
+
+theorem okr_keyStore {C : Code} {T : List St} {idx : Nat} {a : St} {e : Option Nat} {k : Option String}
+    (hC : Seg C idx (keyStore k)) (hT : Seg T idx (keyTab (loopUp a e) k))
+    (he : T[idx + (keyStore k).length]? = some (loopUp a e)) : OKr C T idx (keyStore k).length := by
+  cases k with
+  | none => simp [keyStore, okr_zero]
+  | some x =>
+    simp only [keyStore, List.length_cons, List.length_nil, Nat.zero_add] at he ⊢
+    rw [okr_one]
+    exact rule1 ((seg_cons C idx _ []).mp hC).1 ((seg_cons T idx _ []).mp hT).1
+      (step_storeLocal idx a e) (cov_eq he)
+
+theorem head_cond_same {T : List St} {b : Nat} {loop : Option Nat} {a : St} {o : Option Expr}
+    (hs : Seg T b (condTab b loop a o)) (he : T[b + (condCode b loop o).length]? = some a)
+    (h : optExprScoped o = true) : T[b]? = some a := by
+  have := head_cond hs he h
+  simpa using this
+
+theorem head_cond_some {T : List St} {b : Nat} {loop : Option Nat} {a : St} {o : Option Expr}
+    (hs : Seg T b (condTab b loop a o)) (hx : ∃ c, o = some c)
+    (h : optExprScoped o = true) : T[b]? = some a := by
+  obtain ⟨c, rfl⟩ := hx
+  simp only [condTab] at hs
+  simp only [optExprScoped] at h
+  exact head_expr hs h
 
 theorem tfact_congr {T : List St} {i : Nat} {a : St} {m n : Nat}
     (h : T[i]? = some (pushN a m)) (e : m = n) : T[i]? = some (pushN a n) := e ▸ h
@@ -45,7 +94,11 @@ macro "tfact0" : tactic => `(tactic| first
     | exact head_array (by assumption) (by tfact1) (by assumption)
     | exact head_map (by assumption) (by tfact1) (by assumption)
     | exact head_nodes (by assumption) (by tfact1) (by assumption) (by loopc)
-    | exact head_node (by assumption) (by assumption) (by loopc))
+    | exact head_node (by assumption) (by assumption) (by loopc)
+    | exact head_keyTab (by assumption) (by tfact1)
+    | exact head_cond_some (by assumption) (by assumption) (by assumption)
+    | exact head_cond_same (by assumption)
+        (by first | tfact1 | exact head_expr (by assumption) (by assumption)) (by assumption))
 
 macro "tfact" : tactic => `(tactic| first
     | tfact0
@@ -71,9 +124,12 @@ macro "stept" : tactic => `(tactic| (
 
 macro "wf_step" : tactic => `(tactic| first
   | (apply_assumption
-     all_goals (try (first | tfact | loopc))
+     all_goals (try (first | tfact | (intro _; exact loopCtx_intro (by tfact) (by tfact)) | loopc))
      all_goals (first | rfl | tfact)
      done)
+  | exact okr_keyStore (by assumption) (by assumption) (by tfact)
+  | exact rule_break (by assumption) (by assumption) (by apply_assumption; assumption)
+  | exact rule_continue (by assumption) (by assumption) (by apply_assumption; assumption)
   | (refine rule1 (x := ?x) (by assumption) (by assumption) ?hs ?hc
      case hs => stept
      case hc => covt)
@@ -112,15 +168,16 @@ theorem wf_aux :
   all_goals (try (simp only [exprScoped, nodesScoped, nodeScoped, kwargsScoped,
     filtersScoped, optExprScoped, arrayItemsScoped, mapItemsScoped] at *))
   all_goals (try simp only [Bool.and_eq_true, Bool.or_eq_true] at *)
-  all_goals (try (split <;> rename_i hsplit <;>
-    (try simp only [hsplit, ↓reduceIte, eq_self_iff_true, if_true, if_false, Bool.false_eq_true,
-      Bool.not_eq_true, Bool.not_eq_false] at *)))
+  all_goals (try (split <;> rename_i hsplit <;> first
+    | exact absurd ‹_› hsplit
+    | exact absurd hsplit ‹_›
+    | ((try have hk := Option.isSome_iff_exists.mp hsplit)
+       try simp only [hsplit, ↓reduceIte, if_false, Bool.false_eq_true,
+        Bool.not_eq_true, Bool.not_eq_false, false_or, true_or, or_false, or_true] at *)))
   all_goals (try simp (config := { zetaDelta := true }) only [seg_append, seg_cons, seg_nil, List.length_append,
     List.length_cons, List.length_nil, okr_add, okr_one, okr_zero, tabLen1, tabLen2, tabLen3, tabLen4,
     tabLen5, tabLen6, tabLen7, tabLen8, tabLen9, optLen1, keyTab_length, ← Nat.add_assoc, and_true, true_and, Nat.zero_add, Nat.add_zero] at *)
   all_goals (try casesm* _ ∧ _)
   all_goals (repeat' apply And.intro)
   all_goals (try wf_step)
-  all_goals trace_state
-  all_goals sorry
 end Tera.Compiler
